@@ -597,6 +597,7 @@ func specialSelects() []string {
 func runC04(w *W) {
 	c04ExprCorrespondence(w) // expression core: Lean model vs real printer (p_c04expr.go)
 	c04DDLCorrespondence(w)  // ALTER / column / index / CREATE count-emit pairs (p_c04ddl.go)
+	c04UtilCorrespondence(w) // DROP / RENAME / OPTIMIZE / SHOW / SYSTEM / INSERT / … count-emit pairs (p_c04util.go)
 	all, _ := loadCorpus()
 	// C04 speaks about syntactically valid statements only (see the file header)
 	stmts := make([]corpusStmt, 0, len(all))
